@@ -216,7 +216,8 @@ def materialise(world, top, schedule=None):
                 os.link(os.path.join(top, first_name[grp]), full)
                 continue
             first_name.setdefault(grp, p)
-        with open(full, "w", newline="") as f:
+        # (per-file option "encoding": a legacy file that is not valid UTF-8)
+        with open(full, "w", newline="", encoding=world["files"][p].get("encoding", "utf-8")) as f:
             f.write(subst(text, top))      # (an include directive may spell an absolute path)
     for l in world.get("links", []):
         full = os.path.join(top, l["path"])
